@@ -408,7 +408,52 @@ def r09_9(chk):
     chk.floor("R09.9", 1, "one traversal")
 
 
+def _enclosing_tests(fn, target):
+    """normalised tests of the if/elif branches (taken side) that enclose `target`"""
+    out = []
+
+    def rec(stmts, acc):
+        for st in stmts:
+            if st is target:
+                out.extend(acc)
+                return True
+            if isinstance(st, ast.If):
+                if rec(st.body, acc + [norm(st.test)]):
+                    return True
+                if rec(st.orelse, acc + [f"not ({norm(st.test)})"]):
+                    return True
+            elif isinstance(st, (ast.For, ast.While)):
+                if rec(st.body, acc) or rec(st.orelse, acc):
+                    return True
+            elif isinstance(st, ast.With):
+                if rec(st.body, acc):
+                    return True
+            elif isinstance(st, ast.Try):
+                if rec(st.body, acc) or rec(st.orelse, acc) or rec(st.finalbody, acc) or any(rec(h.body, acc) for h in st.handlers):
+                    return True
+        return False
+
+    rec(fn.body, [])
+    return out
+
+
+def r09_10(chk):
+    chk.rule("R09.10", "un-munging is the inverse of munging only for UNQUOTED labels: the writer quotes every name that contains an underscore (R09.2) precisely so that it is read back verbatim, so in the Newick tokeniser `_` -> ' ' (under underscore_unmunge) is applied in the branch that completes an unquoted label and nowhere on the path of a quoted one (not at the common yield point)")
+    m = chk.repo.module("parse/newick.py")
+    fn = m.func("_Tokeniser.tokens")
+    reps = [st for st in ast.walk(fn) if isinstance(st, ast.Assign) and isinstance(st.value, ast.Call) and isinstance(st.value.func, ast.Attribute) and st.value.func.attr == "replace" and [getattr(a, "value", None) for a in st.value.args[:2]] == ["_", " "]]
+    if not reps:
+        raise AnalysisError("_Tokeniser.tokens: the underscore replacement was not found")
+    for st in reps:
+        tests = _enclosing_tests(fn, st)
+        in_unquoted = any("token is EOT" in t and not t.startswith("not (") for t in tests) and any("closing_quote_token" in t and t.startswith("not (") for t in tests)
+        at_yield = any(t == "label_complete" for t in tests)
+        chk.decide(in_unquoted and not at_yield, "R09.10", key(m, "_Tokeniser.tokens", "underscores un-munged in unquoted labels only"), m.loc(st), "inside the unquoted-label completion branch", f"`{norm(st)}` runs under {tests[-2:] if tests else 'no condition'}: a QUOTED label also passes here, so 'Mus_musculus_129S1' -- quoted by the writer to keep its underscores -- is read back as 'Mus musculus 129S1' and the tip set changes")
+    chk.floor("R09.10", 1, "one replacement")
+
+
 def run(chk):
+    r09_10(chk)
     r09_9(chk)
     r09_8(chk)
     r09_7(chk)
